@@ -49,6 +49,14 @@ def conf(n, k, seed):
     """conformation number k of a species with n atoms: generic coordinates with exactly three decimals"""
     rng = np.random.default_rng(seed * 100003 + 1000 * k + n)
     a = rng.normal(size=(n, 3)) * 0.6 + rng.normal(size=3) * (2.0 if k % 3 else 20.0)
+    if k % 5 == 4 and n >= 3:
+        # a conformation with an exactly straight angle at the first anchor (atoms 1-2-3 on a line, as a user would
+        # write it with three decimals): the map is still a function of the conformation
+        d = np.array([float('%.3f' % v) for v in rng.normal(size=3) * 0.15])
+        if not d.any():
+            d[0] = 0.125
+        a[1] = np.array([float('%.3f' % v) for v in a[0]]) + d
+        a[2] = np.array([float('%.3f' % v) for v in a[0]]) + 2 * d
     return np.array([[float('%.3f' % v) for v in row] for row in a])
 
 
@@ -302,7 +310,8 @@ def check(run):
     run.extra.update({'exhaustive_leaves': total, 'replayed': len(behs), 'simulated_histories': len(long_behs),
                       'max_history_length': max(len(b) for b in long_behs), 'map_calls': calls})
     run.assumptions += ['arguments are conformations of the reference species with the reference topology (>= 3 atoms)',
-                        'reference and target have the same number of residues', 'generic (non-collinear) conformations']
+                        'reference and target have the same number of residues',
+                        'conformations are generic or have an exactly straight angle at an anchor (every fifth conformation)']
 
 
 def main_c04(run):
